@@ -37,7 +37,7 @@ TARGETS = [
 ]
 BOUNDS = {
     "log sources": "category/product/service of filter and rule each absent or one of two values (all subset relations)",
-    "rule lists": "by id, by name, both, 'any', 'ANY', empty list, unknown reference",
+    "rule lists": "by id, by name, both, 'any', 'ANY', empty list, unknown reference, other rule's id, id in upper case",
     "names/conditions": "rule detection name sets x 8 rule condition forms x filter detection name sets x 9 filter condition forms (see RULE_NAMES, FILTER_NAMES, RCONDS, FCONDS); 1 or 2 stacked filters; 3 draws of the internal prefix incl. one colliding with a rule detection name",
     "thorough": "the names/conditions/stacking/draw space crossed with the 9 category relations (filter/rule category absent or one of two values) and 4 rule-list forms",
     "outside": "other names / condition shapes; filters on correlation rules (never applied by design); more than 2 stacked filters",
@@ -48,7 +48,7 @@ ASSUMPTIONS = [
 ]
 
 VALS = [None, "a", "b"]
-RID = "11111111-1111-1111-1111-111111111111"
+RID = "1111aaaa-1111-4111-8111-11111111abcd"
 OTHER = "22222222-2222-2222-2222-222222222222"
 DRAWS = ["abcdefghij", "zzzzzzzzzz", "filtfiltfi"]
 
@@ -64,6 +64,8 @@ RULE_SETS = [
     (["not_a", "Not"], "not_a or Not"),
     (["sel", "_filt_zzzzzzzzzz_f1"], "sel and _filt_zzzzzzzzzz_f1"),
     (["sel", "x_s"], "(sel) or (x_s)"),
+    (["sel", "y_f"], "sel or 1 of *_f"),
+    (["sel", "y_f"], "all of *_*"),
 ]
 # filter side: (detection names, condition)
 FILTER_SETS = [
@@ -138,12 +140,12 @@ def check(rs: int, fs: int, fls, rls, rules_form: int, stacked: bool, draw: int)
         return True
     target = rule_doc(rnames, rcond, rule_ls)
     bystander = rule_doc(["sel"], "sel", {"category": "zzz"}, OTHER, "bystander", 9)
-    rules = [[RID], ["target"], [RID, "nosuch"], "any", "ANY", [], ["nosuch"], [OTHER]][rules_form]
+    rules = [[RID], ["target"], [RID, "nosuch"], "any", "ANY", [], ["nosuch"], [OTHER], [RID.upper()]][rules_form]  # UUIDs are case-insensitive
     filters = [filter_doc(fnames, fcond, filt_ls, rules, 0)]
     if stacked:
         filters.append(filter_doc(["g1"], "not g1", filt_ls, rules, 1))
     covered = all(filt_ls.get(k) is None or filt_ls.get(k) == rule_ls.get(k) for k in ("category", "product", "service"))
-    named = rules_form in (0, 1, 2, 3, 4, 5)
+    named = rules_form in (0, 1, 2, 3, 4, 5, 8)
     applies = covered and named
     try:
         got = convert_docs([target, bystander] + filters, DRAWS[draw])
@@ -179,7 +181,7 @@ def c11_filter(rs: int, fs: int, fc: int, fp: int, fsv: int, rc: int, rp: int, r
     pre: P("RSLO", 0) <= rs < min(len(RULE_SETS), P("RSHI", 99))
     pre: 0 <= fs < len(FILTER_SETS)
     pre: 0 <= fc < 3 and 0 <= fp < 3 and 0 <= fsv < 3 and 0 <= rc < 3 and 0 <= rp < 3 and 0 <= rsv < 3
-    pre: max(0, P("RF", 0)) <= rf <= (P("RF", 0) if P("RF", -1) >= 0 else 7)
+    pre: max(0, P("RF", 0)) <= rf <= (P("RF", 0) if P("RF", -1) >= 0 else 8)
     pre: 0 <= draw < 3
     pre: P("MODE", 0) != 0 or (fc == 1 and fp == 0 and fsv == 0 and rc == 1 and rp == 1 and rsv == 0 and rf == 0)
     pre: P("MODE", 0) != 1 or (rs == 0 and fs == 0 and not stacked and draw == 0)
@@ -189,7 +191,7 @@ def c11_filter(rs: int, fs: int, fc: int, fp: int, fsv: int, rc: int, rp: int, r
     r, f = sel(rs, len(RULE_SETS)), sel(fs, len(FILTER_SETS))
     fls = (VALS[sel(fc, 3)], VALS[sel(fp, 3)], VALS[sel(fsv, 3)])
     rls = (VALS[sel(rc, 3)], VALS[sel(rp, 3)], VALS[sel(rsv, 3)])
-    form = sel(rf, 8)
+    form = sel(rf, 9)
     st, dr = selb(stacked), sel(draw, 3)
     with concrete_section():
         ok = check(r, f, fls, rls, form, st, dr)
@@ -216,7 +218,7 @@ OBLIGATIONS = (
     # names / conditions / stacking / draws, filter applicable by id
     [Ob("c11_filter", {"MODE": 0, "RSLO": lo, "RSHI": lo + 2}, 900) for lo in range(0, len(RULE_SETS), 2)]
     # applicability: log source relations x rule list forms
-    + [Ob("c11_filter", {"MODE": 1, "RF": r}, 900) for r in range(8)]
+    + [Ob("c11_filter", {"MODE": 1, "RF": r}, 900) for r in range(9)]
     + [Ob("c11_logsource", {}, 300)]
     # thorough: names / conditions / stacking / draws crossed with category relations and rule-list forms
     + [Ob("c11_filter", {"MODE": 2, "RSLO": lo, "RSHI": lo + 1}, 2400, tier="thorough") for lo in range(len(RULE_SETS))]
